@@ -27,9 +27,10 @@ structure Res where
     (`is_reffed()` = `n >= local_length`; the block holds the terminator too) -/
 def allocReq (n : Nat) : Nat := if n ≥ Generated.maxSsoLength then n + 1 else 0
 
-/-- `new char[n]` beyond this is refused (`bad_array_new_length` above `PTRDIFF_MAX`; the harness'
-    `operator new` refuses above 2^40, far beyond anything a slice of a real string needs) -/
-def allocLimit : Nat := 2^40
+/-- `new char[n]` beyond `PTRDIFF_MAX` units is refused by the language (`bad_array_new_length`, a
+    `bad_alloc`) before any allocator is asked; below that the allocator is taken to succeed
+    (running out of memory is C19's subject) -/
+def allocLimit : Nat := 2^63 - 1
 
 /-- `return *this` / `return string()` -/
 def whole (s : List Nat) : Res := ⟨s, allocReq s.length⟩
